@@ -60,7 +60,7 @@ class Prov:
         return {r[1] for r in s.roots if r[0] == "param"}
 
 
-def origins(b, local, pass_through=PASS_THROUGH, maxdepth=60, stop_calls=None):
+def origins(b, local, pass_through=PASS_THROUGH, maxdepth=60, stop_calls=None, deep=False):
     """stop_calls: regex; a call matching it is a root even if it is a pass-through"""
     defs = build_defs(b)
     P = Prov()
@@ -98,6 +98,11 @@ def origins(b, local, pass_through=PASS_THROUGH, maxdepth=60, stop_calls=None):
                         st.append((pl["l"], d + 1))
                 else:
                     P.roots.add(("call", f, bbi))
+                    if deep:
+                        # value computed from the arguments: keep tracing all of them
+                        for a in x["a"]:
+                            if not op_is_const(a):
+                                pl = op_place(a); _note_fields(P, b, pl); st.append((pl["l"], d + 1))
             else:
                 if x["l"]["p"]:
                     # partial assignment into a field of l: the whole keeps other origins
